@@ -227,7 +227,11 @@ class Ctx:
         return self.tier == 'thorough' or self.deep
 
     def budget(self, quick, thorough):
-        return thorough if self.thorough() else quick
+        if self.tier == 'thorough':
+            return thorough
+        if self.deep:       # failing-input search after a broken obligation / correspondence diff
+            return min(thorough, 4 * quick)
+        return quick
 
     def cleanup(self):
         shutil.rmtree(self.tmp, ignore_errors=True)
